@@ -7,6 +7,7 @@ package vault
 import (
 	"context"
 	"encoding/json"
+	"errors"
 	"fmt"
 	"sort"
 	"strings"
@@ -63,7 +64,25 @@ type coreOpts struct {
 	ha            bool // single node with an in-memory HA lock: unseal goes to standby, then acquires leadership
 }
 
+// errCoreWedged: a core did not finish its shutdown within the harness' patience (a liveness problem outside the
+// listed properties, see DESIGN.md 10.6). A second core must not be started on the same storage while the first may
+// still be writing to it, so the case is abandoned as inconclusive.
+var errCoreWedged = errors.New("harness: a core did not shut down; case abandoned")
+
+// recoverWedged turns the abandonment of a case into a counted, inconclusive outcome; deferred by properties that
+// restart cores on the same storage.
+func recoverWedged(rec *verifx.Recorder) {
+	if r := recover(); r != nil {
+		if e, ok := r.(error); ok && errors.Is(e, errCoreWedged) {
+			rec.Class("inconclusive:core-shutdown-wedged", 1)
+			return
+		}
+		panic(r)
+	}
+}
+
 type tcore struct {
+	abandoned bool // shutdown timed out; the core may still be running
 	t     *testing.T
 	ct    *caseT
 	c     *Core
@@ -269,6 +288,7 @@ func (tc *tcore) shutdown() {
 		case <-time.After(30 * time.Second):
 			// a wedged core (e.g. a goroutine of a failed case still holds the state lock) is abandoned
 			tc.t.Logf("harness: core shutdown did not finish within 30s; abandoning it")
+			tc.abandoned = true
 		}
 		tc.ct.done()
 	})
@@ -276,6 +296,9 @@ func (tc *tcore) shutdown() {
 
 // restartOn boots a new core on the given physical backend (already initialised).
 func (tc *tcore) restartOn(phys physical.Backend) (*tcore, error) {
+	if tc.abandoned && phys == tc.phys {
+		panic(errCoreWedged)
+	}
 	o := tc.opts
 	o.phys = phys
 	o.noInit = true
